@@ -104,7 +104,7 @@ P("C02", level_text="Theorems for every text and every capacity: the bounded wri
   "RFC 8259 parser and compared with the document; all destination kinds, measureJson and guard bytes are checked inside the harness.",
   level_note="Lean kernel for the buffer contract; RFC 8259 conformance of the text rests on the independent parser over sampled documents; known finding: raw control characters (known_findings.json)",
   suites=lambda tier: [S.JsonSerSuite(cfg=DEF), S.SerBufSweep(cfg=DEF, fmt="json")] +
-  ([S.JsonSerSuite(cfg=CFG_ALL, n=20000), S.JsonSerSuite(cfg={"arduino": 1}, n=20000)] if tier == "thorough" else [S.JsonSerSuite(cfg=CFG_ALL, n=600)]),
+  ([S.JsonSerSuite(cfg=CFG_ALL, n=20000), S.JsonSerSuite(cfg={"arduino": 1}, n=20000)] if tier == "thorough" else [S.JsonSerSuite(cfg=CFG_ALL, n=600), S.JsonSerSuite(cfg={"arduino": 1}, n=400)]),
   partial=["C02_denotes (the text is in the RFC 8259 grammar and denotes the document) rests on the correspondence and the independent parser"])
 
 P("C03", level_text="Theorems for every configuration, limit, filter and byte string, JSON (filtered and unfiltered) and MessagePack: the deserializer never takes more bytes "
@@ -113,7 +113,8 @@ P("C03", level_text="Theorems for every configuration, limit, filter and byte st
   "exactly-sized heap blocks under ASan+UBSan; source independence is checked on the implementation directly.",
   level_note="memory safety of the binary is observed by sanitizers, not proved; the 'never past the terminator' clause of zero-terminated readers rests on ASan",
   suites=lambda tier: [S.JsonAnySuite(cfg=DEF), S.MpDeSuite(cfg=DEF, n=1200 if tier == "quick" else 100000), S.FilterSuite(cfg=DEF, n=2500 if tier == "quick" else 100000),
-                       S.ReuseSuite(cfg=DEF), S.ReuseSuite(cfg=G["tiny2"], n=100 if tier == "quick" else 4000)] +
+                       S.ReuseSuite(cfg=DEF), S.ReuseSuite(cfg=G["tiny2"], n=100 if tier == "quick" else 4000),
+                       S.JsonAnySuite(cfg={"arduino": 1}, n=4000 if tier == "quick" else 100000, maxlen=2)] +
   ([S.JsonAnySuite(cfg=CFG_ALL, n=200000), S.JsonAnySuite(cfg=CFG_NOUNI, n=100000)] if tier == "thorough" else [S.JsonAnySuite(cfg=CFG_ALL, n=8000)]))
 
 P("C07", level_text="Theorems: MessagePack round trip for every raw-free document within limits (accepted, exact consumption, result = norm d with numerically equal numbers, second "
